@@ -471,9 +471,22 @@ def execute(doc):
         rec.probe('runtime_differs_under_skip_checks')
         rec.event(step, 'quantize', 'large-ok', core.sha(small), len(large) - len(small))
         continue
+      fails = lambda x: str(x).startswith(('raise', 'abort'))
+      if b2 != a and not (fails(a) or fails(b) or fails(b2)):
+        # Both forms load and run, the structural oracles have just established that the two files
+        # decode to the identical model (same bytes for every buffer, equal trees) - yet the
+        # numbers differ, stably. On the unchanged tree every such event (five in ~4 million
+        # histories) was traced to a kernel reading outside the model description (ill-typed or
+        # unsupported operands, a per-tensor scale read as per-channel): the result then depends
+        # on the byte layout, which is exactly what differs between the forms. Not attributable to
+        # the serializer, and not decidable from here; counted, not reported.
+        rec.probe('runtime_numbers_differ_for_identical_models')
+        rec.event(step, 'quantize', 'large-ok', core.sha(small), len(large) - len(small))
+        continue
       if b2 != a:
         rec.violate('C16/runtime-differs', step,
-                    'interpreter on the ordinary form (3 runs): %s; on the large form: %s, %s' % (a, b, b2))
+                    'the interpreter accepts one form only - ordinary form (3 runs): %s; large form: %s, %s'
+                    % (a, b, b2))
         rec.event(step, 'quantize', 'runtime-differs')
         break
       rec.probe('large_form_unstable_once')
